@@ -9,7 +9,7 @@ from vt import detsched as ds, aosim
 ID = 'C09'
 ENGINE = 'detsched'
 TECHNIQUE = 'runtime monitoring under a deterministic cooperative scheduler: the object\'s thread is held inside a handler by a cooperative gate while events are posted and published; position oracle over the linearised deque log and the resulting dispatch order'
-RULE = ('1-3 started ActiveObjects, each subscribed to a signal with queue_type lifo, fifo or the default (before start_at or after it), their '
+RULE = ('1-3 started ActiveObjects, each subscribed to a signal with queue_type lifo, fifo, the default, or BOTH ways one call after the other (before start_at or after it), their '
         'threads held inside a handler by a gate; 0-5 pending events are posted (fifo), then a burst of 1-4 unique-id publications of the '
         'subscribed signal is made and the fabric left to deliver (detsched random/PCT); the gate opens. In half of the runs a further '
         'thread posts fifo events to every object while the fabric delivers. The dispatch order after the gate must be: lifo subscriber - '
@@ -18,7 +18,7 @@ RULE = ('1-3 started ActiveObjects, each subscribed to a signal with queue_type 
         'start) tuples x schedule')
 CASES = {'quick': 1200, 'thorough': 40000}
 BUDGET = {'quick': 50, 'thorough': 300}
-REQUIRE = {'runs': 500, 'lifo_deliveries': 500, 'fifo_deliveries': 500, 'lifo_with_pending_events': 200, 'runs_with_concurrent_poster': 200}
+REQUIRE = {'runs': 500, 'lifo_deliveries': 500, 'fifo_deliveries': 500, 'lifo_with_pending_events': 200, 'runs_with_concurrent_poster': 200, 'objects_subscribed_both_ways': 150}
 ASSUME = ['subscriptions of active objects (the statement); plain-deque subscribers keep the repository\'s pinned append behaviour']
 ANNOUNCE_CASES = True
 
@@ -43,7 +43,8 @@ def make_state(hist, gate, name):
 def run_case(ctx, n):
   rng = ctx.rng('case', n)
   nobj = rng.randint(1, 3)
-  cfg = [{'kind': rng.choice(['lifo', 'lifo', 'fifo', None]), 'before_start': rng.random() < 0.5, 'pending': rng.randint(0, 5)} for _ in range(nobj)]
+  cfg = [{'kind': rng.choice(['lifo', 'lifo', 'fifo', None, 'fifo+lifo', 'lifo+fifo']), 'before_start': rng.random() < 0.5, 'pending': rng.randint(0, 5),
+          'second_before_start': rng.random() < 0.3} for _ in range(nobj)]
   burst = rng.randint(1, 4)
   pol = dict(policy='random', p_switch=rng.choice([0.02, 0.1, 0.3])) if rng.random() < 0.7 else dict(policy='pct', pct_depth=rng.choice([2, 3]), pct_len=1500)
   s = ds.Sched(seed=rng.randrange(1 << 30), max_steps=3000000, **pol)
@@ -57,11 +58,16 @@ def run_case(ctx, n):
         hist = aosim.History()
         a = aosim.make_ao(hist, name='c09_%d' % i)
         st = make_state(hist, gate, 'c09_state_%d' % i)
-        if c['before_start']:
-          a.subscribe(Event(signal='C09_PUB'), queue_type=c['kind']) if c['kind'] else a.subscribe(Event(signal='C09_PUB'))
+        # 'fifo+lifo' / 'lifo+fifo': the same object subscribes to the signal in BOTH ways, one call after the other
+        kinds = c['kind'].split('+') if c['kind'] else [None]
+        when = [c['before_start']] + [c['before_start'] and c['second_before_start']] * (len(kinds) - 1)
+        for k, early in zip(kinds, when):
+          if early:
+            a.subscribe(Event(signal='C09_PUB'), queue_type=k) if k else a.subscribe(Event(signal='C09_PUB'))
         a.start_at(st)
-        if not c['before_start']:
-          a.subscribe(Event(signal='C09_PUB'), queue_type=c['kind']) if c['kind'] else a.subscribe(Event(signal='C09_PUB'))
+        for k, early in zip(kinds, when):
+          if not early:
+            a.subscribe(Event(signal='C09_PUB'), queue_type=k) if k else a.subscribe(Event(signal='C09_PUB'))
         objs.append((a, hist))
       s.quiesce()
       for (a, hist) in objs:
@@ -116,6 +122,21 @@ def run_case(ctx, n):
       kind = cfg[i]['kind'] or 'fifo'
       ops = aosim.deque_ops(a)[marks[i]:]
       deliveries = [(op, item.payload) for (step, clock, who, did, op, item, ln) in ops if op in ('append', 'appendleft') and getattr(item, 'signal_name', None) == 'C09_PUB']
+      if '+' in kind:
+        # subscribed both ways: every publication arrives once at the front (lifo) and once at the back (fifo)
+        ctx.count('objects_subscribed_both_ways')
+        got = [h for h in hist.handled]
+        k = len(pubs)
+        rest = got[k + len(pend[i]):]
+        ok = (got[:k] == list(reversed(pubs)) and got[k:k + len(pend[i])] == pend[i] and [x for x in rest if x[0] == 'C09_PUB'] == pubs
+              and [x for x in rest if x[0] == 'EVT'] == xs[i] and len(rest) == len(pubs) + len(xs[i]))
+        if not ok:
+          ctx.violation('C09/both-kinds-delivery-differs', 'object %d subscribed to the signal both ways (%s; first %s start_at, second %s), %d pending events: dispatch order after the gate %r, expected the publications newest first %r, then the pending events %r, then the publications again in publish order (interleaved with the concurrent posts %r)' % (
+            i, kind, 'before' if cfg[i]['before_start'] else 'after', 'before' if (cfg[i]['before_start'] and cfg[i]['second_before_start']) else 'after', len(pend[i]), got, list(reversed(pubs)), pend[i], xs[i]), wit)
+          return
+        ctx.count('lifo_deliveries', k)
+        ctx.count('fifo_deliveries', k)
+        continue
       if sorted(u for _, u in deliveries) != sorted(u for _, u in pubs):
         ctx.count('other_property_disagreements')     # delivery itself is C06/C07's business
         continue
